@@ -26,6 +26,8 @@ func main() {
 	out := flag.String("out", "", "summary JSON path")
 	replay := flag.String("replay", "", "replay file (JSON with property/function/args)")
 	corpus := flag.String("corpus", "", "corpus file: one replay JSON per line, run first")
+	cases := flag.String("cases", "", "write the first -ncases judged cases (JSON lines) for the in-Coq second evaluator")
+	ncases := flag.Int("ncases", 300, "number of cases written to -cases")
 	flag.Parse()
 
 	pr, ok := props.Registry[*prop]
@@ -37,6 +39,13 @@ func main() {
 	if err != nil {
 		fmt.Fprintln(os.Stderr, "cannot start model:", err)
 		os.Exit(3)
+	}
+	if *cases != "" {
+		if f, err := os.Create(*cases); err == nil {
+			r.CaseLog = f
+			r.CaseMax = *ncases
+			defer f.Close()
+		}
 	}
 	t0 := time.Now()
 	r.Sum.Prop = *prop
